@@ -231,6 +231,10 @@ Tr_C17_planned(A, B) ==
 
 (* ------------------------------- C18 ------------------------------------ *)
 Movers(X) == {q \in DOMAIN X.procs : q[1] \in {"H2C", "C2H"} /\ X.procs[q].started}
+(* what one moving step carries: the slower of the two tiers' rates; a       *)
+(* non-positive cold rate is the configuration's way of saying `real time`   *)
+(* (no rate limit: whatever is left moves at once)                           *)
+StepAmount(before) == IF cfg.coldRate > 0 THEN MinI(before, MinI(cfg.hotRate, cfg.coldRate)) ELSE before
 (* what leaves one tier enters the other, at the slower of the two rates    *)
 Tr_C18_step(A, B) ==
     (A.buf.hotFree # B.buf.hotFree /\ A.buf.hotFin = B.buf.hotFin
@@ -241,7 +245,7 @@ Tr_C18_step(A, B) ==
                 before == IF q \in Movers(A) THEN A.procs[q].left ELSE B.obs[o].data
                 amount == IF B.buf.hotFree > A.buf.hotFree THEN B.buf.hotFree - A.buf.hotFree
                           ELSE A.buf.hotFree - B.buf.hotFree
-            IN amount = MinI(before, MinI(cfg.hotRate, cfg.coldRate))
+            IN amount = StepAmount(before)
 (* a finished move leaves the observation stored in exactly one tier and   *)
 (* both transfer slots empty                                               *)
 Tr_C18_done(A, B) ==
@@ -296,7 +300,7 @@ LatencyC == 3
 AllTasks == PlanTasks
 SlowestRuntime(t) == SetMax({MaxI(1, RawRuntime(t[1], t[2], m)) : m \in Machines})
 MaxWait(t) == SetMax({0} \cup {CeilDiv(Vol(t[1], p, t[2]), Bw(m)) : p \in Pred(t[1], t[2]), m \in Machines})
-MoveTime(o) == CeilDiv(ObsVol(o), MaxI(1, MinI(cfg.hotRate, cfg.coldRate))) + 1
+MoveTime(o) == (IF cfg.coldRate > 0 THEN CeilDiv(ObsVol(o), MaxI(1, MinI(cfg.hotRate, cfg.coldRate))) ELSE 1) + 1
 SerialBound ==
     SetMax({DueStep(o) \div K : o \in ObsNames})
     + SumFunction([o \in ObsNames |-> OCfg(o).dur + 2 * MoveTime(o)])
